@@ -4375,7 +4375,7 @@ class TLSConnection(TLSRecordLayer):
 
                 # here we're assuming that the HRR was sent because of
                 # missing key share, that may not always be the case
-                if len(ext.client_shares) != 1:
+                if not ext.client_shares or len(ext.client_shares) != 1:
                     for result in self._sendError(AlertDescription
                                                   .illegal_parameter,
                                                   "Multiple key shares in "
